@@ -612,7 +612,7 @@ theorem opDestroy_inv {s : St} (hi : Inv s) (sd : Side) (j : Nat)
     have hwfd : ConnWF (s.p.modify j fun i => { i with destroyed := true }) :=
       hi.wfP.modify j _ rfl (fun h c => hi.wfP.loaded j c h) (fun h => hi.wfP.fresh j h)
     split
-    · exact ⟨hdes, hi.cohT, hwfd, hi.wfT, hi.wsLock⟩
+    · exact hi
     rename_i hl
     have hws := hi.wsLock (by simpa using hl)
     simp only [good, Bool.or_eq_true, decide_eq_true_eq, Bool.and_eq_true, Bool.not_eq_true'] at hg
@@ -645,7 +645,7 @@ theorem opDestroy_inv {s : St} (hi : Inv s) (sd : Side) (j : Nat)
     have hwfd : ConnWF (s.t.modify j fun i => { i with destroyed := true }) :=
       hi.wfT.modify j _ rfl (fun h c => hi.wfT.loaded j c h) (fun h => hi.wfT.fresh j h)
     split
-    · exact ⟨hi.cohP, hdes, hi.wfP, hwfd, hi.wsLock⟩
+    · exact ⟨hi.cohP, hi.cohT, hi.wfP, hi.wfT, hi.wsLock⟩
     rename_i hob
     simp only [good, Bool.or_eq_true, decide_eq_true_eq, Bool.not_eq_true'] at hg
     rcases hg with (hg | hg) | ho
